@@ -23,7 +23,8 @@ Definition code_fixes : fixes :=
   mkFixes code_fixed_F05 code_fixed_F06 code_fixed_F07 code_fixed_F08 code_fixed_F26
           code_fixed_F70 code_fixed_F71 code_fixed_F72.
 
-Record sto := mkSt { so_id : nat; so_code : nat; so_ro : nat; so_root : nat }.
+Record sto := mkSt { so_id : nat; so_code : nat; so_ro : nat; so_root : nat;
+                     so_nodes : list (nat * nat) }.   (* DFS pre-order: node id, server *)
 
 Record obs := mkObs {
   ob_out : nat;                        (* 0 returned, 1 panic / process died, 2 never returned *)
@@ -34,7 +35,8 @@ Record obs := mkObs {
   ob_insts : list (token * nat);       (* tracked tokens: 0 unknown / 1 listed / 2 done *)
   ob_parked : option nat;
   ob_ptm : nat;
-  ob_removal : list (nat * bool) }.
+  ob_removal : list (nat * bool);
+  ob_reply_ok : bool }.                (* every reply the protocol's handler sent to its parent has arrived there *)
 
 (* what a canary operation is owed *)
 Inductive expect :=
@@ -46,11 +48,15 @@ Inductive case :=
 | mkCase (ops : list (op * option expect * bool))      (* operation, canary expectation, full observation available *)
          (observed : list obs)
 | mkStress (aborted : bool) (free_scans : bool)        (* F26 stress run: runtime abort on concurrent map access / scan seen without the lock *)
-| mkRace (variant : nat) (crashed : bool) (served : bool).
+| mkRace (variant : nat) (crashed : bool) (hung : bool) (served : bool)
   (* forced schedule race-deliver-done: a peer's message is held at the wake-up of the
      instance's reader while the instance is closed (0: by Done, 1: by Overlay.Close,
      2: the flush goroutine delivers a parked message, closed by Done); process died /
-     the legitimate run afterwards was served *)
+     the closer, the delivery or a step of the scenario never returned / the scenario's
+     legitimate messages and the legitimate run afterwards were served *)
+| mkAbnormal (crashed : bool) (hung : bool).
+  (* a run that ended outside every scripted observation: the process hosting the server
+     died at an unexpected place / did not finish within the (generous) deadline *)
 
 (* ---- model vs observation ------------------------------------------------------ *)
 
@@ -83,11 +89,20 @@ Definition model_delivs (l : list event) : list (token * nat) :=
 
 Definition out_code (o : outcome) : nat := match o with Ok => 0 | Crashed _ => 1 | Wedged _ => 2 end.
 
+Fixpoint list_eqb {A} (eqb : A -> A -> bool) (a b : list A) : bool :=
+  match a, b with
+  | [], [] => true
+  | x :: a', y :: b' => eqb x y && list_eqb eqb a' b'
+  | _, _ => false
+  end.
+
 Definition sto_ok (s : ostate) (o : sto) : bool :=
   match lookup (so_id o) (store s) with
   | None => so_code o =? 0
   | Some (Req _) => so_code o =? 1
-  | Some (Have t) => (so_code o =? 2) && (so_ro o =? ro_id (t_roster t)) && (so_root o =? root_node t)
+  | Some (Have t) =>
+      (so_code o =? 2) && (so_ro o =? ro_id (t_roster t)) && (so_root o =? root_node t) &&
+      list_eqb (fun a b => (fst a =? fst b) && (snd a =? snd b)) (so_nodes o) (nodes_of (t_root t))
   end.
 
 Definition inst_code (s : ostate) (k : token) : nat :=
@@ -104,7 +119,8 @@ Definition obs_ok (r : result) (full : bool) (o : obs) : bool :=
     forallb (fun kc => inst_code s (fst kc) =? snd kc) (ob_insts o) &&
     match ob_parked o with Some n => length (parked s) =? n | None => true end &&
     (length (ptm s) =? ob_ptm o) &&
-    forallb (fun ib => Bool.eqb (mem_nat (fst ib) (removal s)) (snd ib)) (ob_removal o))).
+    forallb (fun ib => Bool.eqb (mem_nat (fst ib) (removal s)) (snd ib)) (ob_removal o) &&
+    ob_reply_ok o)).
 
 Fixpoint replay (s : ostate) (ops : list (op * option expect * bool)) (os : list obs) : bool :=
   match ops, os with
@@ -137,8 +153,10 @@ Definition race_model (variant : nat) : bool * bool :=
 
 Definition agree (c : case) : bool :=
   match c with
-  | mkRace v crashed served =>
-      Bool.eqb (fst (race_model v)) crashed && (crashed || (v =? 1) || Bool.eqb (snd (race_model v)) served)
+  | mkRace v crashed hung served =>
+      Bool.eqb (fst (race_model v)) crashed && negb hung &&
+      (crashed || Bool.eqb ((v =? 1) || snd (race_model v)) served)
+  | mkAbnormal _ _ => false                                  (* the model has no such run *)
   | mkCase ops os => replay init ops os
   | mkStress aborted free_scans =>
       (* the model predicts a race only: with the repair no scan happens without the lock *)
@@ -181,10 +199,11 @@ Definition check (c : case) : list nat :=
   | mkCase ops os =>
       clause 1 (forallb (fun o => negb (ob_out o =? 1)) os) ++
       clause 2 (forallb (fun o => negb (ob_out o =? 2) && match ob_locks o with [] => true | _ => false end) os) ++
-      clause 3 (canaries_ok true ops os []) ++
+      clause 3 (canaries_ok true ops os [] && forallb ob_reply_ok os) ++
       clause 4 (canaries_ok false ops os [])
   | mkStress aborted free_scans => clause 5 (negb aborted && negb free_scans)
-  | mkRace _ crashed served => clause 1 (negb crashed) ++ clause 3 (crashed || served)
+  | mkRace _ crashed hung served => clause 1 (negb crashed) ++ clause 2 (negb hung) ++ clause 3 (crashed || hung || served)
+  | mkAbnormal crashed hung => clause 1 (negb crashed) ++ clause 2 (negb hung)
   end.
 
 Definition violations (l : list case) : list (nat * nat) := viols check l.
